@@ -456,3 +456,240 @@ Qed.
 (* on the property's domain the MRO is the depth-first walk itself *)
 Theorem mro_domain : forall T c, no_repeated_ancestor T c = true -> mro T c = dfs T c.
 Proof. intros T c H. apply dedup_id. now apply nodupb_NoDup. Qed.
+
+(* `cls` in a classmethod: answering through the instance table (pinned tree, F31) agrees with the
+   type lookup exactly when no class of the MRO assigns the name through self *)
+Theorem cls_form_agrees : forall T c x,
+  find (self_assigns T x) (mro T c) = None ->
+  get x (inst_attrs T c) = option_map ClsAt (py_class_lookup T c x).
+Proof.
+  intros T c x H. rewrite instance_lookup_correct. unfold py_instance_lookup. now rewrite H.
+Qed.
+
+(* ---------------------------------------------------------------------------------------------- *)
+(* C3: without repeated ancestors the linearisation CPython computes is the depth-first walk         *)
+(* ---------------------------------------------------------------------------------------------- *)
+Definition c3_prepend (t : list nat) (r : c3_result) : c3_result :=
+  match r with C3Ok l => C3Ok (t ++ l) | e => e end.
+
+Lemma c3_pick_first : forall E h t rest all,
+  forallb is_nil E = true -> existsb (in_tail h) all = false ->
+  c3_pick (E ++ (h :: t) :: rest) all = Some h.
+Proof.
+  induction E as [|e E IH]; intros h t rest all HE Hall; simpl.
+  - now rewrite Hall.
+  - simpl in HE. apply andb_true_iff in HE. destruct HE as [He HE].
+    destruct e; [|discriminate]. now apply IH.
+Qed.
+
+Lemma map_drop_nil : forall h E, forallb is_nil E = true -> map (c3_drop h) E = E.
+Proof.
+  induction E as [|e E IH]; intros HE; simpl; [reflexivity|].
+  simpl in HE. apply andb_true_iff in HE. destruct HE as [He HE].
+  destruct e; [|discriminate]. simpl. now rewrite IH.
+Qed.
+
+Lemma map_drop_notin : forall h R, ~ In h (concat R) -> map (c3_drop h) R = R.
+Proof.
+  induction R as [|l R IH]; intros H; simpl; [reflexivity|].
+  simpl in H. rewrite in_app_iff in H. rewrite IH by tauto. f_equal.
+  destruct l as [|x l]; [reflexivity|]. simpl.
+  destruct (Nat.eqb_spec x h) as [->|_]; [|reflexivity]. elim H. left. now left.
+Qed.
+
+Lemma in_tail_notin : forall h l, ~ In h l -> in_tail h l = false.
+Proof.
+  intros h [|x l] H; [reflexivity|]. simpl.
+  destruct (memb h l) eqn:M; [|reflexivity]. apply memb_In in M. elim H. now right.
+Qed.
+
+Lemma existsb_in_tail_notin : forall h R, ~ In h (concat R) -> existsb (in_tail h) R = false.
+Proof.
+  induction R as [|l R IH]; intros H; simpl; [reflexivity|].
+  simpl in H. rewrite in_app_iff in H. rewrite in_tail_notin by tauto. now rewrite IH by tauto.
+Qed.
+
+Lemma existsb_in_tail_nil : forall h E, forallb is_nil E = true -> existsb (in_tail h) E = false.
+Proof.
+  induction E as [|e E IH]; intros HE; simpl; [reflexivity|].
+  simpl in HE. apply andb_true_iff in HE. destruct HE as [He HE].
+  destruct e; [|discriminate]. simpl. now apply IH.
+Qed.
+
+Lemma forallb_nil_app_cons : forall E h t rest, forallb is_nil (E ++ (h :: t) :: rest) = false.
+Proof.
+  induction E as [|e E IH]; intros; simpl; [reflexivity|]. rewrite IH. apply andb_false_r.
+Qed.
+
+(* one merge step: the head h of the first non-empty list is taken when it is in no tail *)
+Lemma c3_merge_step : forall f E h t R bs,
+  forallb is_nil E = true -> ~ In h t -> ~ In h (concat R) -> in_tail h bs = false ->
+  c3_merge (S f) (E ++ (h :: t) :: R ++ [bs]) =
+  c3_prepend [h] (c3_merge f (E ++ t :: R ++ [c3_drop h bs])).
+Proof.
+  intros f E h t R bs HE Ht HR Hbs. cbn [c3_merge]. rewrite forallb_nil_app_cons.
+  rewrite c3_pick_first; [|exact HE|].
+  - rewrite map_app. cbn [map]. rewrite map_app. cbn [map]. rewrite map_drop_nil by exact HE.
+    rewrite map_drop_notin by exact HR. cbn [c3_drop]. rewrite Nat.eqb_refl.
+    destruct (c3_merge f (E ++ t :: R ++ [c3_drop h bs])); reflexivity.
+  - rewrite existsb_app. rewrite existsb_in_tail_nil by exact HE. cbn [existsb orb].
+    rewrite existsb_app. cbn [existsb]. cbn [in_tail].
+    destruct (memb h t) eqn:M; [apply memb_In in M; now elim Ht|].
+    rewrite existsb_in_tail_notin by exact HR. rewrite Hbs. reflexivity.
+Qed.
+
+Lemma c3_drop_notin : forall h bs, ~ In h bs -> c3_drop h bs = bs.
+Proof.
+  intros h [|x bs] H; [reflexivity|]. simpl.
+  destruct (Nat.eqb_spec x h) as [->|_]; [|reflexivity]. elim H. now left.
+Qed.
+
+(* a started list is consumed to its end *)
+Lemma c3_merge_consume : forall t f E R bs,
+  forallb is_nil E = true -> NoDup t -> (forall x, In x t -> ~ In x (concat R) /\ ~ In x bs) ->
+  c3_merge (length t + f) (E ++ t :: R ++ [bs]) = c3_prepend t (c3_merge f (E ++ [] :: R ++ [bs])).
+Proof.
+  induction t as [|h t IH]; intros f E R bs HE ND D.
+  - simpl. destruct (c3_merge f (E ++ [] :: R ++ [bs])); reflexivity.
+  - inversion ND as [|? ? Hh ND']; subst. destruct (D h (or_introl eq_refl)) as [DR Db].
+    cbn [length plus]. rewrite c3_merge_step; [|exact HE|exact Hh|exact DR|now apply in_tail_notin].
+    rewrite c3_drop_notin by exact Db. rewrite IH; [|exact HE|exact ND'|].
+    + destruct (c3_merge f (E ++ [] :: R ++ [bs])); reflexivity.
+    + intros x Hx. apply D. now right.
+Qed.
+
+Lemma heads_in_concat : forall (R : list (list nat)) x,
+  (forall l, In l R -> l <> []) -> In x (map (hd 0) R) -> In x (concat R).
+Proof.
+  induction R as [|l R IH]; intros x NE H; simpl in *; [exact H|].
+  apply in_app_iff. destruct H as [<-|H].
+  - left. destruct l as [|y l]; [now elim (NE [] (or_introl eq_refl))|]. now left.
+  - right. apply IH; [|exact H]. intros l' Hl'. apply NE. now right.
+Qed.
+
+Lemma NoDup_app_parts : forall (a b : list nat), NoDup (a ++ b) ->
+  NoDup a /\ NoDup b /\ forall x, In x a -> ~ In x b.
+Proof.
+  induction a as [|y a IH]; intros b H; simpl in *.
+  - split; [constructor|]. split; [exact H|]. intros x [].
+  - inversion H as [|? ? Hy H']; subst. destruct (IH b H') as (Na & Nb & D).
+    split; [constructor; [|exact Na]; intros Q; apply Hy, in_app_iff; now left|].
+    split; [exact Nb|]. intros x [<-|Hx]; [intros Q; apply Hy, in_app_iff; now right | now apply D].
+Qed.
+
+(* merging linearisations that share no class, followed by the list of their heads *)
+Lemma c3_merge_disjoint : forall R E,
+  forallb is_nil E = true -> (forall l, In l R -> l <> []) -> NoDup (concat R) ->
+  forall f, c3_merge (length (concat R) + f) (E ++ R ++ [map (hd 0) R]) = C3Ok (concat R).
+Proof.
+  induction R as [|l R IH]; intros E HE NE ND f.
+  - simpl. assert (A : forallb is_nil (E ++ [[]]) = true) by (rewrite forallb_app, HE; reflexivity).
+    destruct f; cbn [c3_merge]; rewrite A; reflexivity.
+  - destruct l as [|b t]; [now elim (NE [] (or_introl eq_refl))|].
+    assert (NE' : forall l, In l R -> l <> []) by (intros l' Hl'; apply NE; now right).
+    cbn [concat] in *. cbn [map hd app].
+    change ((b :: t) ++ concat R) with (b :: (t ++ concat R)) in *.
+    inversion ND as [|? ? Hb ND']; subst. destruct (NoDup_app_parts _ _ ND') as (Nt & NR & D).
+    cbn [length plus].
+    change (E ++ (b :: t) :: R ++ [b :: map (hd 0) R]) with (E ++ (b :: t) :: R ++ [b :: map (hd 0) R]).
+    rewrite c3_merge_step; [|exact HE| | |].
+    + cbn [c3_drop]. rewrite Nat.eqb_refl. rewrite app_length, <- Nat.add_assoc.
+      rewrite c3_merge_consume; [|exact HE|exact Nt|].
+      * replace (E ++ [] :: R ++ [map (hd 0) R]) with ((E ++ [[]]) ++ R ++ [map (hd 0) R])
+          by (now rewrite <- app_assoc).
+        rewrite IH; [reflexivity| |exact NE'|exact NR].
+        rewrite forallb_app, HE. reflexivity.
+      * intros x Hx. split; [now apply D|]. intros Q. apply (D x Hx). now apply heads_in_concat.
+    + intros Q. apply Hb, in_app_iff. now left.
+    + intros Q. apply Hb, in_app_iff. now right.
+    + cbn [in_tail]. destruct (memb b (map (hd 0) R)) eqn:M; [|reflexivity].
+      apply memb_In in M. elim Hb. apply in_app_iff. right. now apply heads_in_concat.
+Qed.
+
+Lemma wf_from_bases : forall T i c b, wf_from i T = true -> c < length T ->
+  In b (bases (nth c T empty_cls)) -> b < i + c.
+Proof.
+  induction T as [|k T IH]; intros i c b W Hc Hb; simpl in *; [lia|].
+  apply andb_true_iff in W. destruct W as [Wk W]. destruct c.
+  - unfold wf_row in Wk. rewrite forallb_forall in Wk. apply Wk in Hb. apply Nat.ltb_lt in Hb. lia.
+  - specialize (IH (S i) c b W). assert (c < length T) by lia. specialize (IH H Hb). lia.
+Qed.
+
+Lemma wf_bases : forall T c b, wf T = true -> c < length T -> In b (bases (row T c)) -> b < c.
+Proof. intros T c b W Hc Hb. apply (wf_from_bases T 0 c b W Hc Hb). Qed.
+
+Lemma c3_out : forall T c, length T <= c -> c3_mro T c = C3Inconsistent.
+Proof. intros. unfold c3_mro. now apply tabulate_out. Qed.
+
+Lemma c3_eq : forall T c, c < length T ->
+  c3_mro T c = c3_step (tabulate C3Inconsistent c3_step (firstn c T)) c (row T c).
+Proof. intros. unfold c3_mro. now apply tabulate_eq. Qed.
+
+Lemma concat_map_flat_map : forall {A B} (g : A -> list B) l, concat (map g l) = flat_map g l.
+Proof. intros. induction l as [|a l IH]; simpl; [reflexivity | now rewrite IH]. Qed.
+
+Lemma c3_step_unfold : forall rec i k,
+  c3_step rec i k =
+  match c3_collect rec (bases k) with
+  | None => C3Inconsistent
+  | Some ls => match c3_merge (S (length (concat ls) + length (bases k))) (ls ++ [bases k]) with
+               | C3Ok r => C3Ok (i :: r)
+               | e => e
+               end
+  end.
+Proof. reflexivity. Qed.
+
+Lemma c3_collect_dfs : forall T c bs, c <= length T ->
+  (forall b, In b bs -> b < c) -> (forall b, In b bs -> c3_mro T b = C3Ok (dfs T b)) ->
+  c3_collect (tabulate C3Inconsistent c3_step (firstn c T)) bs = Some (map (dfs T) bs).
+Proof.
+  intros T c bs Hc. induction bs as [|b bs IHb]; intros Hb Hr; [reflexivity|].
+  cbn [c3_collect map]. rewrite tabulate_firstn by exact Hc.
+  destruct (Nat.ltb_spec b c) as [Q|Q]; [|specialize (Hb b (or_introl eq_refl)); lia].
+  fold (c3_mro T b). rewrite (Hr b (or_introl eq_refl)).
+  rewrite IHb; [reflexivity| |]; intros b' Hb'; [apply Hb | apply Hr]; now right.
+Qed.
+
+Lemma NoDup_flat_map_part : forall (g : nat -> list nat) bs b,
+  NoDup (flat_map g bs) -> In b bs -> NoDup (g b).
+Proof.
+  induction bs as [|a bs IH]; intros b ND H; [destruct H|]. simpl in ND.
+  destruct (NoDup_app_parts _ _ ND) as (Na & Nbs & _).
+  destruct H as [<-|H]; [exact Na | now apply IH].
+Qed.
+
+Theorem c3_is_dfs : forall T, wf T = true -> forall c, c < length T ->
+  NoDup (dfs T c) -> c3_mro T c = C3Ok (dfs T c).
+Proof.
+  intros T W c. induction c as [c IH] using lt_wf_ind. intros Hc ND.
+  rewrite c3_eq by exact Hc. rewrite dfs_eq in ND by exact Hc. rewrite dfs_eq by exact Hc.
+  inversion ND as [|? ? Hn ND']; subst. clear ND Hn.
+  remember (bases (row T c)) as bs eqn:Ebs.
+  assert (Hb : forall b, In b bs -> b < c).
+  { intros b Hb. subst bs. now apply (wf_bases T c b W Hc). }
+  assert (E : flat_map (fun b => if Nat.ltb b c then dfs T b else []) bs = flat_map (dfs T) bs).
+  { clear -Hb. induction bs as [|b bs IHb]; [reflexivity|]. simpl.
+    destruct (Nat.ltb_spec b c) as [_|Q]; [|specialize (Hb b (or_introl eq_refl)); lia].
+    f_equal. apply IHb. intros b' Hb'. apply Hb. now right. }
+  rewrite E in *.
+  assert (C : c3_collect (tabulate C3Inconsistent c3_step (firstn c T)) bs = Some (map (dfs T) bs)).
+  { apply c3_collect_dfs; [lia | exact Hb |]. intros b Hin. apply IH; [now apply Hb | specialize (Hb b Hin); lia |].
+    now apply (NoDup_flat_map_part (dfs T) bs). }
+  rewrite c3_step_unfold, <- Ebs, C.
+  assert (H : map (hd 0) (map (dfs T) bs) = bs).
+  { clear -Hb Hc. induction bs as [|b bs IHb]; [reflexivity|]. cbn [map].
+    rewrite IHb by (intros b' Hb'; apply Hb; now right).
+    rewrite dfs_eq by (specialize (Hb b (or_introl eq_refl)); lia). reflexivity. }
+  assert (NE : forall l, In l (map (dfs T) bs) -> l <> []).
+  { intros l Hl. apply in_map_iff in Hl. destruct Hl as [b [<- Hb']].
+    rewrite dfs_eq by (specialize (Hb b Hb'); lia). discriminate. }
+  assert (NDc : NoDup (concat (map (dfs T) bs))) by (now rewrite concat_map_flat_map).
+  pose proof (c3_merge_disjoint (map (dfs T) bs) [] eq_refl NE NDc (S (length bs))) as M.
+  cbn [app] in M. rewrite H in M.
+  rewrite Nat.add_succ_r in M.
+  match goal with
+  | |- match ?X with _ => _ end = _ =>
+      replace X with (C3Ok (concat (map (dfs T) bs))) by (symmetry; exact M)
+  end.
+  now rewrite concat_map_flat_map.
+Qed.
